@@ -26,6 +26,7 @@ def die(msg):
 def read(rel):
     src = open(os.path.join(REPO, rel)).read()
     src = re.sub(r'/\*.*?\*/', '', src, flags=re.S)
+    src = re.sub(r'^[ \t]*PIKA_VERIF_[A-Z]+\(.*?\);[ \t]*\n', '', src, flags=re.M)   # verification hooks are not code
     return re.sub(r'//[^\n]*', '', src)
 
 
